@@ -63,11 +63,16 @@ func (d *mapTypeFieldTextDecoder) Decode(req *protocol.Request, params param.Par
 		if tagInfo.Skip || tagInfo.Key == jsonTag || tagInfo.Key == fileNameTag {
 			if tagInfo.Key == jsonTag {
 				defaultValue = tagInfo.Default
-				found := checkRequireJSON(req, tagInfo)
-				if found {
+				if tagInfo.Required {
+					if checkRequireJSON(req, tagInfo) {
+						err = nil
+					} else {
+						err = fmt.Errorf("'%s' field is a 'required' parameter, but the request does not have this parameter", tagInfo.Value)
+					}
+				} else if err != nil && keyExist(req, tagInfo) {
+					// an optional json tag makes up for a missing 'required' value of another
+					// source only if the body really carries the key
 					err = nil
-				} else {
-					err = fmt.Errorf("'%s' field is a 'required' parameter, but the request does not have this parameter", tagInfo.Value)
 				}
 				if len(tagInfo.Default) != 0 && keyExist(req, tagInfo) {
 					defaultValue = ""
